@@ -32,4 +32,37 @@ PROPS = {
             "memory safety of the MaybeUninit storage is not derived from the model beyond slot states and the drop log",
         ],
     ),
+
+    "C12": dict(
+        prop_file="Properties/C12.v",
+        check_module="C12Check",
+        theorems={t: [] for t in [
+            "C12_every_history", "C12_get", "C12_insert", "C12_insert_other_keys", "C12_remove",
+            "C12_remove_other_keys", "C12_get_mut", "C12_entry", "C12_adjust_capacity", "C12_iter_len",
+            "C12_alloc_failure_unchanged", "C12_load_leaves_free_slot"]},
+        n_quick=300, n_thorough=4000,
+        gates=["hm.grew>2", "hm.removed_present", "hm.alloc_failed", "hm.mode=hint", "hm.mode=hash",
+               "hm.zero_hash_key_in_universe", "hm.get_mut_written"],
+        rule="random histories (20-300 ops) over CaoHashMap<drop-logging key, drop-logging value, fault-injecting "
+             "allocator>: insert / remove / get / contains / get_mut-write / entry(+or_insert_with) / reserve / clear / "
+             "clone / len / capacity / iter, initial capacity 0..19, small key universes (collisions, replacement), "
+             "keys whose FNV hash is 0, a second mode driving the *_with_hint API with 1-4 distinct hashes "
+             "(dense collisions, wrap-around), 1 in 8 allocating operations fails; after every operation result and "
+             "drop log are compared with the Coq model and with a reference map + drop accounting; non-trivial = "
+             ">= 4 operation kinds and at least one growth; distinct = distinct case term",
+        trusted_base=COMMON_TB + [
+            "modelled, not verified: collections/hash_map.rs (find_ind, insert_with_hint, grow/adjust_capacity, "
+            "remove_with_hint, get/contains/get_mut, entry/or_insert_with, reserve, clear/Drop, clone, iter, hash()) "
+            "and the f32 load test as integer round-to-nearest-even (exact for capacity < 2^24)",
+            "tools/gen_consts.py regenerates MAX_LOAD, the growth rule and the FNV / fibonacci constants from /repo; "
+            "the side conditions (MAX_LOAD < 1 by more than an ulp, growth strictly grows) are re-proved against them"],
+        assumptions=[
+            "K's Eq is Leibniz equality in the theorems (the correspondence instance uses keys with an instance id "
+            "that Eq ignores, only to identify objects in the drop log)",
+            "usize is 64 bits; capacities stay below 2^24 (above, `usize as f32` is inexact and the integer model of "
+            "the load test is no longer the f32 computation)",
+            "exactly-once dropping is checked by the reference-map oracle on the implementation's drop log and "
+            "stated per operation in the theorems (drop lists); the global multiset conservation theorem is not proved",
+        ],
+    ),
 }
